@@ -41,6 +41,18 @@ def main(tier):
     for k in sorted(set(writers)):
         rep.add_obligation(f"{k}#frame#writer-of-pages-table-is-under-the-memo-contract", "frame",
                            "proved" if k in under else "refuted", "syntactic", fn=k)
+    # memoisation is modelled by a ghost flag for get_page only: any other memoised function would be an
+    # unmodelled cache that the table writers do not invalidate
+    memo = []
+    for m in loader.package_modules():
+        md = loader.module(m)
+        for qual, fn in loader.all_functions(md):
+            for d in getattr(fn, "decorator_list", []):
+                src = loader.norm(d)
+                if "cache" in src and ("lru_cache" in src or src.endswith("cache") or "functools.cache" in src):
+                    memo.append(f"{m}:{qual}")
+    rep.add_obligation("package#frame#get_page-is-the-only-memoised-function", "frame",
+                       "proved" if memo == ["core:Wtp.get_page"] else "refuted", "syntactic", detail=str(memo))
     try:
         rep.bounded = check.run_repo_py("bounded/c10_run.py", {"tier": tier, "seed": rep.seed}, timeout=6000)
     except Exception as ex:
